@@ -568,6 +568,42 @@ EXTRA15 = {
 }
 
 
+# addenda of round 16 (technique, text)
+EXTRA16 = {
+    'C01': ('settings tables may name levels the reduced tree lacks (rule '
+            'of C17)',
+            'A per-level table validated against the reduced tree may '
+            'name the dropped level.'),
+    'C03': ('value identity of the election results handed on',
+            'What choose_node returns reaches the records element by '
+            'element, not re-sorted (R-SAMEVAL/results-as-chosen).'),
+    'C04': ('cursor discipline of the functions that join worker pieces',
+            'The functions that join the pieces of the workers place '
+            'every piece, also an empty one.'),
+    'C09': ('row provenance inside the truncation helper',
+            'The truncation helper addresses rows only through its '
+            'leaf -> row tables (R-PROV/rows-through-row-tables).'),
+    'C12': ('kind agreement of whole-array casts',
+            'A whole-array cast to a chosen integer type is sized from a '
+            'bound of the kind of what the array holds.'),
+    'C13': ('linear capacity predicate of the unsigned-type choice',
+            'A candidate index type is admitted at most up to its '
+            'capacity (R-CAP/fits-predicate).'),
+    'C14': ('interrupt and exit handlers on worker paths',
+            'A worker does not turn KeyboardInterrupt / SystemExit into a '
+            'normal return.'),
+    'C15': ('key census of the serialised tree',
+            'The tree written into the outputs carries every table the '
+            'class consults (R-AGREE/serialised-tree-complete).'),
+    'C16': ('must-pass of the rounding helpers',
+            'round_x_to_integers never returns normally without having '
+            'rounded (R-MUST/rounding-performed).'),
+    'C18': ('default-store idiom in merges',
+            'Per-file marker tables are merged without storing defaults '
+            'over earlier entries (R-COVER/merge-keeps-earlier).'),
+}
+
+
 def main():
     checks = []
     for pid in ALL:
@@ -578,6 +614,11 @@ def main():
             tech = tech + '; ' + EXTRA[pid][0]
             text = text + ' ' + EXTRA[pid][1]
             ref = ref + ' and section 15'
+        if pid in EXTRA16:
+            tech = tech + '; ' + EXTRA16[pid][0]
+            text = text + ' ' + EXTRA16[pid][1]
+            if 'section 15' not in ref:
+                ref = ref + ' and section 15'
         if pid in EXTRA15:
             tech = tech + '; ' + EXTRA15[pid][0]
             text = text + ' ' + EXTRA15[pid][1]
